@@ -216,6 +216,11 @@ func e2eCases(t *testing.T, prop string) {
 				continue
 			}
 			if status != 0 {
+				if joinNeverStarted(jlog) {
+					rec.Class("not-run-join-never-reached-the-session")
+					rec.Note("join printed nothing but its banner (status %d after %.0fs): %s", status, dur.Seconds(), desc)
+					return
+				}
 				sig := "e2e:join-failed"
 				if status == -1 {
 					sig = "e2e:join-did-not-finish"
@@ -251,6 +256,14 @@ func e2eCases(t *testing.T, prop string) {
 			}
 		}
 	})
+}
+
+// joinNeverStarted: the join process printed nothing but its banner - it did not get as far as
+// the signaling server (a server of another concurrently running check on the same port, a
+// machine that stalls for a minute). Such a run says nothing about the peers' behaviour in a
+// session and is not judged.
+func joinNeverStarted(jlog string) bool {
+	return !strings.Contains(jlog, "level=") && !strings.Contains(jlog, "QUIC") && !strings.Contains(jlog, "candidates") && !strings.Contains(jlog, "transfer")
 }
 
 func grepErrors(s string) string {
